@@ -326,6 +326,42 @@ def captures_and_drop_panics(chk, col, bindir, tier, release=False, tag=""):
     col.flush("captures" + tag)
 
 
+def process_state(chk, col, bindir, tier, release=False, tag=""):
+    """Process-wide state as a scenario dimension: (1) soft RLIMIT_STACK unlimited / 8 MiB / 512 KiB /
+    128 KiB with closures that use 512 KiB of stack (a thread's stack is what spawn maps, whatever the
+    main thread's limit is; the mapped length is recorded as a structural lead); (2) SCHED_FIFO with the
+    whole process confined to ONE CPU: a spawner that busy-waits for its child never lets it run."""
+    script = ["set watchdog=3000", "baseline", "one ty=u8 fin=ret op=join wk=3", "one ty=arr fin=ret op=drop wk=3 hdelay=2000",
+              "one ty=u128 fin=panic op=join wk=3 pk=5", "one ty=vec fin=ret op=join wk=4", "quiesce"]
+    import resource
+    sizes = {}
+    for label, lim in (("unlimited", resource.RLIM_INFINITY), ("8M", 8 << 20), ("512K", 512 << 10), ("128K", 128 << 10)):
+        r = T.run_probe(chk, bindir, "rlimit-stack-%s%s" % (label, tag), script, strace=True, timeout=60,
+                        rlimits={"RLIMIT_STACK": lim})
+        r.release = release
+        o, b, info = col.add(r, "free")
+        sizes[label] = info.get("stack_sz")
+    chk.extra["stack_mapping_size_by_rlimit_stack" + tag] = {"observed": sizes, "independent_of_rlimit": len(set(sizes.values())) == 1,
+                                                            "lead": "not judged; the deep-stack closures judge the behaviour"}
+    # --- SCHED_FIFO on one CPU
+    ncpu = os.cpu_count() or 1
+    script = ["set watchdog=3000", "baseline"] + ["one ty=u8 fin=ret op=join"] * 3 + ["one ty=vec fin=ret op=drop",
+              "one ty=u128 fin=panic op=join pk=6", "quiesce"]
+    try:
+        r = T.run_probe(chk, bindir, "fifo-one-cpu" + tag, script, strace=False, timeout=12,
+                        launcher=["chrt", "-f", "10"], cpus=str(ncpu - 1))
+    except core.ToolError as e:
+        chk.extra["sched_fifo_one_cpu" + tag] = "not exercised: %s" % str(e)[:200]
+    else:
+        r.release = release
+        if not r.events:
+            chk.extra["sched_fifo_one_cpu" + tag] = "not exercised: the launcher could not start the probe (rc=%s)" % r.rc
+        else:
+            col.add(r, "free")
+            chk.extra["sched_fifo_one_cpu" + tag] = "exercised"
+    col.flush("procstate" + tag)
+
+
 WORK_KINDS = {1: "fork + wait, the child scribbles over its copy of the locals", 2: "spawns and joins a thread of its own",
               3: "512 KiB of stack frames", 4: "allocation heavy"}
 
@@ -397,7 +433,7 @@ def fault_script(ty, op):
     lines = ["set watchdog=2500", "baseline"]
     for i in range(WARM):
         lines.append("one ty=u8 fin=ret op=join")
-    lines.append("one ty=%s fin=ret op=%s" % (ty, op))      # the spawn that meets the failing system call
+    lines.append("one ty=%s fin=ret op=%s ck=1" % (ty, op))   # the spawn that meets the failing system call; its closure owns a token
     lines.append("one ty=u128 fin=ret op=join")             # the runtime must still work afterwards
     lines.append("quiesce")
     return lines
@@ -428,7 +464,7 @@ def discovered_faults(chk, col, bindir, tier, release=False, tag=""):
     found = []
     for ty, op, fin in combos:
         script = ["set watchdog=2500", "baseline"] + ["one ty=u8 fin=ret op=join"] * WARM
-        script += ["one ty=%s fin=%s op=%s hdelay=%d" % (ty, fin, op, 3000 if op == "drop" else 0),
+        script += ["one ty=%s fin=%s op=%s hdelay=%d ck=1" % (ty, fin, op, 3000 if op == "drop" else 0),
                    "one ty=u128 fin=ret op=join", "quiesce"]
         cal = T.run_probe(chk, bindir, "fault-discover-%s-%s-%s%s" % (ty, op, fin, tag), script, strace=True, trace="all", timeout=90)
         o, b, info = T.normalise(cal)
